@@ -55,7 +55,7 @@ func init() {
 		ID: "C16", NoShrink: true,
 		Rule: "te: ServeConn pipelines where some handlers call TimeoutError (some after asking for a hijack, with or without HijackSetNoResponse; some answering through TimeoutErrorWithResponse(&ctx.Response) and then rewriting that response in place; some leaving a streamed 9000-byte request body unread, after which nothing more may be served) and keep mutating the ctx (GET/HEAD/POST, HTTP/1.0 keep-alive and 1.1) followed by ordinary requests; " +
 			"wrap: Serve + TimeoutHandler(120ms) with inner handlers parked on gates past the deadline that afterwards rewrite status, headers and body, released by the NEXT request's handler so that late writes race with the next response; " +
-			"conc: Concurrency N with N+1 connections holding slow wrapped handlers; wrapc: Concurrency 1..2, one connection, handlers that outlive their timeout and keep running while later requests arrive, and that return later (R) after which the slots must be free again (status sequence = the Lean semaphore model, peak running <= N); monitor: timed-out requests get exactly the timeout status/message (no body for HEAD), no late write on the wire, later requests answered normally, " +
+			"conc: Concurrency N with N+1 connections holding slow wrapped handlers; wrapc: Concurrency 1..2, one connection, handlers that outlive their timeout and keep running while later requests arrive, and that return later (R) after which the slots must be free again, over one connection accepted by Serve or first over a ServeConn connection and then over one accepted by a Serve call made afterwards on the same Server (status sequence = the Lean semaphore model, peak running <= N); monitor: timed-out requests get exactly the timeout status/message (no body for HEAD), no late write on the wire, later requests answered normally, " +
 			"at most N wrapped handlers inside, excess get 429; non-trivial = at least one timed-out request followed by another request; distinct = distinct input",
 		Parallel: false,
 		Build: func(kind string, a [][]byte) *Case {
@@ -330,42 +330,67 @@ func init() {
 				s := &fasthttp.Server{Handler: fasthttp.TimeoutHandler(inner, 150*time.Millisecond, "busy or timed out"), Concurrency: n, Logger: nopLogger{}, NoDefaultDate: true, NoDefaultServerHeader: true}
 				ln := fasthttputil.NewInmemoryListener()
 				done := make(chan struct{})
-				go func() { s.Serve(ln); close(done) }()
 				var got []string
 				var rerr error
-				if c, err := ln.Dial(); err == nil {
-					br := bufio.NewReader(c)
-					for i := 0; i < len(script); i++ {
-						if script[i] == 'R' {
-							// every handler that outlived its timeout returns now; later calls must find the slots free again
-							relMu.Lock()
-							close(release)
-							release = make(chan struct{})
-							relMu.Unlock()
-							for w := 0; inside.Load() != 0; w++ {
-								if w > 1000 {
-									stuck = "handlers did not return within 5 s after they were released"
-									break
-								}
-								time.Sleep(5 * time.Millisecond)
+				// a[2] == "mix": the first half of the script goes over a connection handed to ServeConn BEFORE Serve is
+				// called on the same Server; Serve(ln) then starts and the rest goes over a connection it accepts. The
+				// handlers still running from the first half keep their slots.
+				mixed := len(a) > 2 && string(a[2]) == "mix"
+				one := func(c net.Conn, br *bufio.Reader, i int) bool {
+					if script[i] == 'R' {
+						// every handler that outlived its timeout returns now; later calls must find the slots free again
+						relMu.Lock()
+						close(release)
+						release = make(chan struct{})
+						relMu.Unlock()
+						for w := 0; inside.Load() != 0; w++ {
+							if w > 1000 {
+								stuck = "handlers did not return within 5 s after they were released"
+								break
 							}
-							time.Sleep(20 * time.Millisecond) // the slot goes back right after the handler returned, on its goroutine
-							continue
+							time.Sleep(5 * time.Millisecond)
 						}
-						q := fmt.Sprintf("id=%d", i)
-						if script[i] == 's' {
-							q += "&slow=1"
-						}
-						fmt.Fprintf(c, "GET /r?%s HTTP/1.1\r\nHost: h\r\n\r\n", q)
-						c.SetReadDeadline(time.Now().Add(3 * time.Second))
-						resp, err := http.ReadResponse(br, &http.Request{Method: "GET"})
-						if err != nil {
-							rerr = err
+						time.Sleep(20 * time.Millisecond) // the slot goes back right after the handler returned, on its goroutine
+						return true
+					}
+					q := fmt.Sprintf("id=%d", i)
+					if script[i] == 's' {
+						q += "&slow=1"
+					}
+					fmt.Fprintf(c, "GET /r?%s HTTP/1.1\r\nHost: h\r\n\r\n", q)
+					c.SetReadDeadline(time.Now().Add(3 * time.Second))
+					resp, err := http.ReadResponse(br, &http.Request{Method: "GET"})
+					if err != nil {
+						rerr = err
+						return false
+					}
+					io.Copy(io.Discard, resp.Body)
+					resp.Body.Close()
+					got = append(got, fmt.Sprint(resp.StatusCode))
+					return true
+				}
+				first := 0
+				if mixed {
+					first = (len(script) + 1) / 2
+					c1, c2 := net.Pipe()
+					scDone := make(chan struct{})
+					go func() { s.ServeConn(c1); close(scDone) }()
+					br := bufio.NewReader(c2)
+					for i := 0; i < first; i++ {
+						if !one(c2, br, i) {
 							break
 						}
-						io.Copy(io.Discard, resp.Body)
-						resp.Body.Close()
-						got = append(got, fmt.Sprint(resp.StatusCode))
+					}
+					c2.Close()
+					<-scDone
+				}
+				go func() { s.Serve(ln); close(done) }()
+				if c, err := ln.Dial(); err == nil && rerr == nil {
+					br := bufio.NewReader(c)
+					for i := first; i < len(script); i++ {
+						if !one(c, br, i) {
+							break
+						}
 					}
 					c.Close()
 				}
@@ -494,6 +519,15 @@ func init() {
 			}
 			emit("wrapc", B("1"), B("sfs"))
 			emit("wrapc", B("2"), B("ssfRfsf"))
+			emit("wrapc", B("1"), B("ssfs"), B("mix"))
+			emit("wrapc", B("2"), B("sssfRs"), B("mix"))
+			for i := 0; i < ncw/2; i++ {
+				var sc []byte
+				for j, m := 0, 2+r.Intn(4); j < m; j++ {
+					sc = append(sc, "ssfR"[r.Intn(4)])
+				}
+				emit("wrapc", []byte{byte('1' + r.Intn(2))}, sc, B("mix"))
+			}
 			emit("wrapc", B("1"), B("sRsRf"))
 			emit("wrapsc", B("ff"))
 			emit("conc", B("1"))
